@@ -292,6 +292,7 @@ type IntentOpts struct {
 	Subs       bool // subscriptions 'Src -> Ev' to events of applications declared earlier
 	Collectors bool // '.. * <- *' blocks merging attributes into endpoints and call statements
 	PathVarRefs bool // REST path variables typed by a bare local type name or App.Type
+	MultiLineAnnos bool // string annotations written in the multi-line form '@k =:' + '| text' lines
 }
 
 func GenIntent(t *rapid.T) *Intent { return GenIntentOpt(t, IntentOpts{}) }
@@ -349,6 +350,41 @@ func GenIntentOpt(t *rapid.T, opts IntentOpts) *Intent {
 					ep.Stmts = g.genStmts(t, a, 1, 3)
 				}
 				a.Eps = append(a.Eps, ep)
+			}
+		}
+	}
+	if opts.MultiLineAnnos {
+		// docs/docs/lang/annotation.md: "A long string can be split over multiple lines, with two
+		// newlines to separate paragraphs": every '| text' line contributes its text and a newline
+		multi := func(m *Meta) {
+			for _, k := range sortedKeys(m.Annos) {
+				v := m.Annos[k]
+				if v.IsArr || rapid.IntRange(0, 2).Draw(t, "multiline") != 0 {
+					continue
+				}
+				n := rapid.IntRange(1, 4).Draw(t, "nannolines")
+				var lines []string
+				for i := 0; i < n; i++ {
+					if i > 0 && i < n-1 && rapid.IntRange(0, 3).Draw(t, "emptyannoline") == 0 {
+						lines = append(lines, "")
+					} else {
+						lines = append(lines, genWords(t, 1, 4))
+					}
+				}
+				val := ""
+				for _, l := range lines {
+					val += l + "\n"
+				}
+				m.Annos[k] = AttrV{S: &val, lines: lines}
+			}
+		}
+		for _, a := range in.Apps {
+			multi(&a.Meta)
+			for _, td := range a.Types {
+				multi(&td.Meta)
+				for i := range td.Fields {
+					multi(&td.Fields[i].T.Meta)
+				}
 			}
 		}
 	}
